@@ -121,6 +121,14 @@ theorem C25_targets_conservative_partial (G : Graph) (Q : Query) (ts fs : List N
     exact ⟨r, hr, reach_snoc p e⟩
   | test hf => rw [hc] at hf; cases hf
 
+/-- With `--conservative` the model never reaches a recursion bound on a graph that holds its dependencies: the
+result is always `some …`, so the theorem above covers every such run. -/
+theorem C25_fuel_conservative (G : Graph) (hwf : GWF G) (Q : Query) (hc : Q.includeTests = true)
+    (hs : ∀ t ∈ Q.subincs, t ∈ G.nodes) (ha : ∀ t ∈ Q.args, t ∈ G.nodes) : ∃ ts fs, targetsToRemove G Q = some (ts, fs) := by
+  unfold targetsToRemove
+  simp only [keepSet_fuel_conservative G hwf Q hc hs ha, Bool.false_eq_true, ite_false]
+  exact ⟨_, _, rfl⟩
+
 /-- Partial: no SOURCE file of a target that an initial root depends on is proposed for deletion
 (data files are not covered: `C25_witness_data_file`). -/
 theorem C25_srcs_partial (G : Graph) (Q : Query) (ts fs : List Nat) (h : targetsToRemove G Q = some (ts, fs)) :
